@@ -355,3 +355,8 @@ def rules(chk: Check) -> None:
     chk.stage(per_object_state, chk, "R02.8", ("Hydrodynamics", "HydrodynamicsTemplateModel", "Thermodynamics", "FreeEnergy", "InterpolatableFunction"))
     chk.stage(guarded_brackets, chk, "R02.8", ["hydrodynamics:Hydrodynamics.findMatching", "hydrodynamics:Hydrodynamics.matchDeton",
                                     "hydrodynamics:Hydrodynamics.matchDeflagOrHyb"], floor=2)
+    # R02.9: the junction relations contain no new hard-wired absolute scale (an `np.isclose` / bare tolerance applied to an energy density or
+    # pressure makes the matching depend on the units of T: shared with C07 R07.4, restricted to the hydrodynamics modules)
+    from . import c07
+    chk.stage(c07.rules, Remap(chk, {"R07.4": "R02.9"}, only=lambda r, k, w: "hydrodynamics" in str(w)))
+    chk.floor("R02.9", 3)
